@@ -93,6 +93,12 @@ def gen_cases(chk, tier):
         b_, l, rr, shape = G.gen_nb_triple_bundled(r)
         args = r.choice(G.BUNDLING_ARGS)
         for c in G.NB3_CALLS: cases.append({'call': c, 'base': b_, 'local': l, 'remote': rr, 'args': args, 'src': 'nb3-bundled:' + shape})
+    # diffs / decision lists from elsewhere (not produced by nbdime's differ, whose dict-level diffs are always key-sorted): hand-built
+    # without nbdime, or nbdime's own re-listed -- dict-level entries in arbitrary order at every nesting level, custom diffs edited by
+    # a front end -- handed to patch / apply_decisions and to the renderers (c13_gen.gen_foreign_cases, c13_runner.foreign_order)
+    nf = {'quick': dict(hand_js=40, hand_nb=30, hand_dec=30, re_js=30, re_nb=30, re_js3=20, re_nb3=20),
+          'thorough': dict(hand_js=600, hand_nb=450, hand_dec=450, re_js=450, re_nb=450, re_js3=300, re_nb3=300)}[tier]
+    cases.extend(G.gen_foreign_cases(r, nf))
     return cases
 
 def strip(case):
@@ -278,10 +284,12 @@ def run(tier, seed):
         cases = gen_cases(chk, tier)
         results = core.run_impl([{'op': 'observe', 'case': strip(c)} for c in cases], shards=14, script=RUNNER, env_extra=env)
         # ---- T2: the property itself on every observed call
-        hist = {}; nontriv = set(); reordered = {}; raw_first = {}; raw_count = {}; exc_count = {}
+        hist = {}; nontriv = set(); reordered = {}; raw_first = {}; raw_count = {}; exc_count = {}; foreign = {}
         harness_errs = 0
         for c, ob in zip(cases, results):
             hist[c['call']] = hist.get(c['call'], 0) + 1
+            if c.get('src', '').startswith('foreign:'):
+                fk = c['src'][len('foreign:'):] + ':' + c['call']; foreign[fk] = foreign.get(fk, 0) + 1
             if 'harness_err' in ob or 'err' in ob:
                 harness_errs += 1
                 if harness_errs <= 2: chk.broken_obligation('harness:' + PROP, {'case': strip(c), 'error': ob})
@@ -374,9 +382,14 @@ def run(tier, seed):
                     'merge_notebooks x strategies, apply_decisions, pretty_print_{notebook,diff,notebook_diff,merge_decisions,notebook_merge}) on exhaustive small '
                     'JSON pairs, random JSON pairs/triples (genjson), random v4 notebooks rich in display_data/execute_result outputs and notebook triples whose merge re-bundles '
                     'several decisions onto one path and key (c13_gen); '
+                    'valid diffs / decision lists NOT produced by nbdime (whose dict-level diffs are always key-sorted): built by hand without nbdime (plain dicts, '
+                    'notebooks: metadata / cell / output levels; decisions with local / remote / either / custom actions) or nbdime\'s own diff / decisions re-listed '
+                    '(reverse, shuffle, rotate, adjacent swap; as fresh objects from JSON or in place; conflicts resolved by a front end into custom diffs) with the '
+                    'dict-level entries in arbitrary key order at every nesting level, given to patch, patch_notebook, apply_decisions and pretty_print_{diff,'
+                    'notebook_diff,merge_decisions,notebook_merge} (foreign_inputs); '
                     'non-trivial = the result holds at least one list/dict (aliasing possible) or a renderer was given a non-empty diff/decision list; '
                     'distinct by sha1 of (call, inputs)',
-            'input_distribution': hist, 'traces_validated_against_impl': t1, 'model_impl_mismatches': mism,
+            'input_distribution': hist, 'foreign_inputs': foreign, 'traces_validated_against_impl': t1, 'model_impl_mismatches': mism,
             'patch_traces': len(ptasks), 'outputs_traces_where_nested_differ_raised': nested_raises, 'outputs_traces_incl_fault_points': len(otasks),
             'key_order_changed_calls': reordered, 'calls_raising': exc_count, 'raw_signature_counts': raw_count,
             'source_facts': facts,
